@@ -74,8 +74,27 @@ fn world_infos() -> Vec<WorldInfo> {
     v
 }
 
+fn memcheck_engine() -> bool {
+    std::env::var("ANYSIM_ENGINE").map(|v| v == "valgrind").unwrap_or(false)
+}
+
 fn opts_for(prof: &Profile) -> ExecOpts {
-    ExecOpts { focus: None, free_place: prof.free_place, poison_spare: true, alloc_monitor: true, trace: false }
+    let mc = memcheck_engine();
+    // under memcheck the simulator's own storage instrumentation is off: the tool supplies red zones,
+    // definedness and freed-block tracking on the plain malloc blocks
+    ExecOpts { focus: None, free_place: prof.free_place, poison_spare: !mc, alloc_monitor: !mc, trace: false, memcheck: mc }
+}
+
+/// Command that runs this executable, under Valgrind when the memcheck engine is selected.
+fn engine_command(exe: &std::path::Path, log: &str) -> std::process::Command {
+    if memcheck_engine() {
+        let mut c = std::process::Command::new("valgrind");
+        c.args(["--quiet", "--error-exitcode=0", "--leak-check=no", "--undef-value-errors=yes", "--num-callers=16", &format!("--log-file={}", log)]);
+        c.arg(exe);
+        c
+    } else {
+        std::process::Command::new(exe)
+    }
 }
 
 #[derive(Clone, Copy)]
@@ -96,6 +115,13 @@ fn tier_for(prop: &str, tier: &str) -> Tier {
             "C05" => 12,
             _ => 0,
         };
+        if let Some(c) = std::env::var("VERIF_CAP_S").ok().and_then(|s| s.parse::<u64>().ok()) {
+            t.cap_s = c;
+        }
+        return t;
+    }
+    if tier == "thorough-valgrind" {
+        let mut t = Tier { runs: 2_000_000, cap_s: 150, variants: if prop == "C05" { 4 } else { 0 } };
         if let Some(c) = std::env::var("VERIF_CAP_S").ok().and_then(|s| s.parse::<u64>().ok()) {
             t.cap_s = c;
         }
@@ -335,7 +361,7 @@ fn worker(args: &[String]) {
     let infos = world_infos();
     simcore::registry::install_hook();
     simcore::blackbox::open(&format!("{}/bb-{}", outdir, wid));
-    start_watchdog(15);
+    start_watchdog(if memcheck_engine() { 300 } else { 15 });
     let start = Instant::now();
     let mut agg = Agg::default();
     let mut found: Vec<Found> = Vec::new();
@@ -863,7 +889,7 @@ fn check(prop: &str, tier: &str) -> i32 {
     let mut ws: Vec<W> = Vec::new();
     let mut gen = 0u32;
     let spawn = |lo: u64, hi: u64, wid: String, deadline: u64| -> W {
-        let child = std::process::Command::new(&exe)
+        let child = engine_command(&exe, &format!("{}/memcheck-{}.log", workdir, wid))
             .args(["worker", prop, tier, &seed.to_string(), &lo.to_string(), &hi.to_string(), &workdir, &wid, &deadline.to_string()])
             .spawn()
             .unwrap_or_else(|e| die2(&format!("spawn worker: {}", e)));
@@ -1045,7 +1071,7 @@ fn check(prop: &str, tier: &str) -> i32 {
         }
         // reproduce and minimise in a disposable sub-process: a violation may corrupt memory
         let outp = format!("{}/triage-{}.scn", workdir, by_sig.keys().position(|k| k == sig).unwrap_or(0));
-        let st = std::process::Command::new(&exe).args(["triage", prop, tier, file, &outp]).stderr(std::process::Stdio::null()).status().unwrap_or_else(|e| die2(&format!("triage: {}", e)));
+        let st = engine_command(&exe, &format!("{}/replays/{}-memcheck.log", &home(), prop)).args(["triage", prop, tier, file, &outp]).stderr(std::process::Stdio::null()).status().unwrap_or_else(|e| die2(&format!("triage: {}", e)));
         let (min, vmin) = if st.code() == Some(0) {
             let t = std::fs::read_to_string(&outp).unwrap_or_else(|e| die2(&format!("read {}: {}", outp, e)));
             let pm = scn::from_text(&t).unwrap_or_else(|e| die2(&format!("parse {}: {}", outp, e)));
@@ -1081,7 +1107,7 @@ fn check(prop: &str, tier: &str) -> i32 {
         let detail = if vmin.class == Class::Triage { vmin.detail.clone() } else { format!("step {}: {}", vmin.step, vmin.detail) };
         std::fs::write(&path, scn::to_text(&min, &name, prop, &msig, &detail)).unwrap_or_else(|e| die2(&format!("write {}: {}", path, e)));
         // confirm in a fresh process
-        let st = std::process::Command::new(&exe).args(["replay", &path, "--quiet"]).status().unwrap_or_else(|e| die2(&format!("replay: {}", e)));
+        let st = engine_command(&exe, &format!("{}/replays/{}-memcheck.log", &home(), prop)).args(["replay", &path, "--quiet"]).status().unwrap_or_else(|e| die2(&format!("replay: {}", e)));
         if st.code() != Some(1) {
             die2(&format!("minimised replay {} did not reproduce in a fresh process (status {:?})", path, st));
         }
@@ -1179,10 +1205,23 @@ fn check(prop: &str, tier: &str) -> i32 {
     ev.push_str(&format!("    \"known_findings_hit\": [{}],\n", known_hit.iter().map(|k| json_str(&k.0)).collect::<Vec<_>>().join(", ")));
     ev.push_str(&format!("    \"violations_reported\": [{}],\n", reported.iter().map(|r| json_str(&format!("{} {}", r.0, r.1))).collect::<Vec<_>>().join(", ")));
     ev.push_str("    \"components\": {\"real\": [\"any_vec (all of /repo/src, rebuilt from the working tree)\", \"mem::Heap\", \"mem::Stack\", \"mem::StackN\"], \"simulated\": [\"user-defined back end SimMem/SimBuilder\", \"global allocator SimAlloc\", \"element types with Drop/Clone fuses\", \"replacement iterators\", \"client issuing API calls\", \"placement arena\"], \"model\": [\"Vec<tag> per vector + ownership ledger\"]},\n");
-    ev.push_str(&format!("    \"engine\": {},\n", json_str(if cfg!(debug_assertions) { "native, checked profile (debug assertions + overflow checks)" } else { "native, release-like profile" })));
+    ev.push_str(&format!("    \"engine\": {},\n", json_str(if memcheck_engine() { "Valgrind memcheck on the release-like binary, simulator's own storage instrumentation off" } else if cfg!(debug_assertions) { "native, checked profile (debug assertions + overflow checks)" } else { "native, release-like profile" })));
     ev.push_str(&extra_json);
     ev.push_str(&probe_json);
     if tier == "thorough" {
+        let mp = format!("{}/evidence/{}.memcheck.json", &home(), prop);
+        let fresh = std::fs::metadata(&mp).ok().and_then(|m| m.modified().ok()).and_then(|t| t.elapsed().ok()).map(|d| d.as_secs() < 3600).unwrap_or(false);
+        if fresh {
+            if let Ok(t) = std::fs::read_to_string(&mp) {
+                let grab = |key: &str| -> String {
+                    t.lines().find(|l| l.trim_start().starts_with(&format!("\"{}\":", key))).map(|l| l.trim().trim_end_matches(',').splitn(2, ':').nth(1).unwrap_or("0").trim().to_string()).unwrap_or_else(|| "0".to_string())
+                };
+                ev.push_str(&format!(
+                    "    \"memcheck_engine\": {{\"evaluations\": {}, \"distinct_nontrivial\": {}, \"violations\": {}, \"note\": \"same seeds under Valgrind memcheck with SimMem blocks and Heap blocks as plain malloc blocks; full record in {}.memcheck.json\"}},\n",
+                    grab("evaluations"), grab("distinct_nontrivial"), grab("violations"), prop
+                ));
+            }
+        }
         // summary of the checked-profile engine run by ./check just before this one
         let cp = format!("{}/evidence/{}.checked.json", &home(), prop);
         let fresh = std::fs::metadata(&cp).ok().and_then(|m| m.modified().ok()).and_then(|t| t.elapsed().ok()).map(|d| d.as_secs() < 3600).unwrap_or(false);
@@ -1204,7 +1243,9 @@ fn check(prop: &str, tier: &str) -> i32 {
     ev.push_str(&format!("  \"wall_s\": {:.2},\n", wall));
     ev.push_str(&format!("  \"violations\": {}\n", reported.len()));
     ev.push_str("}\n");
-    let evpath = if tier == "thorough-checked" { format!("{}/evidence/{}.checked.json", &home(), prop) } else { format!("{}/evidence/{}.json", &home(), prop) };
+    let evpath = if tier == "thorough-valgrind" {
+        format!("{}/evidence/{}.memcheck.json", &home(), prop)
+    } else if tier == "thorough-checked" { format!("{}/evidence/{}.checked.json", &home(), prop) } else { format!("{}/evidence/{}.json", &home(), prop) };
     std::fs::write(&evpath, ev).unwrap_or_else(|e| die2(&format!("write {}: {}", evpath, e)));
 
     for g in &gaps {
@@ -1299,7 +1340,7 @@ fn main() {
         "replay" => {
             let trace = args.iter().any(|a| a == "--trace");
             let quiet = args.iter().any(|a| a == "--quiet");
-            start_watchdog(if quiet { 5 } else { 15 });
+            start_watchdog(if memcheck_engine() { 300 } else if quiet { 5 } else { 15 });
             std::process::exit(replay(&args[1], trace, quiet));
         }
         "run" => {
@@ -1358,7 +1399,7 @@ fn main() {
         "triage" => {
             // triage <prop> <tier> <violation file> <out file>: reproduce and minimise in this
             // (disposable) process; exit 0 = minimised scenario written, 3 = did not reproduce
-            start_watchdog(60);
+            start_watchdog(if memcheck_engine() { 600 } else { 60 });
             let prop = args[1].as_str();
             let tier = args[2].as_str();
             let prof = profile(prop).unwrap_or_else(|| die2("unknown property"));
